@@ -61,6 +61,7 @@ def twin_for(phi):
 
 def run(chk):
     thorough = chk.tier == 'thorough'
+    chk.bounds['families added after seeded changes'] = 'E-UNI also on the one-way instance W2; all 49 unary-operator pairs; plain members of the duplicate families of C04 / C10 / C15 (triple occurrences, scope stacks, siblings, two depths, swapped two-variable duplicates); batches of three formulas of different heights through the four plain multi-formula entry points'
     configs = [(2, 0), (2, 1)] + ([(3, 0), (3, 1)] if thorough else [(3, 0)])
     chk.bounds.update({'E-MIR kernels': f'(n, colour bits) in {configs}; all transition systems, all unit sets (products of valid colours), all argument sets',
                        'E-MIR dispatch': 'the string entry point model_check_multiple_extended_formulae executed from MIR (tokenizer .. sanitizing); n=2 (thorough: n=3 for k<=1), children are arbitrary symbolic coloured sets',
